@@ -683,7 +683,8 @@ def b_type(eng, st, args, kw):
         out = []
         for s, w in eng.narrow(st, v):
             if isinstance(w, SAny):
-                raise Unsupported("type() of untyped value")
+                out.append((s, SOpaque(label="type(..)")))  # the class of a value we know nothing about: an unconstrained opaque value
+                continue
             out.extend(b_type(eng, s, [w], kw))
         return out
     if isinstance(v, SRef) and v.ty.kind == "class":
@@ -703,6 +704,10 @@ def b_type(eng, st, args, kw):
         return [(st, STypeName("int"))]
     if isinstance(v, SStr):
         return [(st, STypeName("str"))]
+    if isinstance(v, SBool):
+        return [(st, STypeName("bool"))]
+    if v is NONEV or type(v).__name__ == "SNone":
+        return [(st, STypeName("NoneType"))]
     raise Unsupported(f"type() of {type(v).__name__}")
 
 
@@ -1758,6 +1763,76 @@ def lock_release(eng, st, args, kw):
 
 def lock_locked(eng, st, args, kw):
     return [(st, SBool(Val.bval(st.read_field(args[0].t, "locked"))))]
+
+
+# ---- codec pairs (pickle.dumps / pickle.loads and friends) ---------------------------------------------------------------
+# A dependency's encoder/decoder pair, declared in a sidecar by  codec_pair("name", enc="mod.dumps", dec="mod.loads").
+# ASSUMED (listed in the evidence): dec(enc(v)) == v for every value v, and dec never fails on what enc produced.  Nothing else
+# is known: the bytes are an opaque blob identified by the term enc(v); decoding any other byte string may raise or give anything.
+# Nested mutable containers of v are identified with those of dec(enc(v)) (a copy is not distinguished from the original).
+_CODECS: dict = {}
+
+
+def codec_functions(name):
+    if name not in _CODECS:
+        _CODECS[name] = (z3.Function(f"codec_{name}_enc", Val, sym.IntS), z3.Function(f"codec_{name}_dec", sym.IntS, Val),
+                         z3.Function(f"codec_{name}_ok", sym.IntS, sym.BoolS))
+    return _CODECS[name]
+
+
+def _codec_instance(st, name, v):
+    """the assumed round-trip law, instantiated at the value being encoded (ground: refutations stay quantifier-free)"""
+    from . import bytesalg
+    enc, dec, ok = codec_functions(name)
+    st.assume(z3.And(dec(enc(v)) == v, ok(enc(v)), bytesalg.blob_len(enc(v)) >= 0))
+
+
+def make_codec_enc(name):
+    def enc_call(eng, st, args, kw):
+        from . import bytesalg
+        if len(args) != 1 or kw:
+            raise Unsupported(f"codec {name}: encoder called with options")
+        enc, _, _ = codec_functions(name)
+        v = _store_val(args[0]) if not isinstance(args[0], bytesalg_SBytes()) else bytesalg.bytes_val(args[0])
+        _codec_instance(st, name, v)
+        i = enc(v)
+        return [(st, bytesalg._SB([("blob", i, z3.IntVal(0), bytesalg.blob_len(i))]))]
+    return enc_call
+
+
+def bytesalg_SBytes():
+    from .engine import SBytes
+    return SBytes
+
+
+def make_codec_dec(name):
+    def dec_call(eng, st, args, kw):
+        from . import bytesalg
+        if len(args) != 1 or kw:
+            raise Unsupported(f"codec {name}: decoder called with options")
+        _, dec, ok = codec_functions(name)
+        b = args[0]
+        if isinstance(b, SOpaque):
+            i = b.t
+        elif isinstance(b, bytesalg_SBytes()):
+            try:
+                i = Val.oid(bytesalg.bytes_val(b))
+            except Unsupported:
+                i = sym.fresh_int("cblob")  # a composite byte string: contents unknown to the codec
+        elif isinstance(b, SAny):
+            i = Val.oid(b.t)
+        else:
+            raise Unsupported(f"codec {name}: decoding a {type(b).__name__}")
+        out = []
+        if eng.pure:
+            return [(st, SAny(dec(i), ANY))]
+        for s, good in eng.branch(st, ok(i)):
+            if good:
+                out.append((s, SAny(dec(i), ANY)))
+            else:
+                out.append((eng.raise_(s, "Exception", f"{name}: undecodable bytes"), None))
+        return out
+    return dec_call
 
 
 LOCK_EXTERNALS = {"Lock.acquire": lock_acquire, "Lock.release": lock_release, "Lock.locked": lock_locked}
